@@ -1,5 +1,5 @@
 (** * C04 - Interrupted operations resume to the same result; seed fixed by the first call. *)
-From LP Require Import Proofs.Tactics Proofs.Loop Proofs.Resume Proofs.Resume2 Proofs.Resume3 Proofs.Resume4 Proofs.Examples.
+From LP Require Import Proofs.Tactics Proofs.Loop Proofs.Resume Proofs.Resume2 Proofs.Resume3 Proofs.Resume4 Proofs.Confirm Proofs.Interleave Proofs.LifecycleNoisy Proofs.Examples.
 Open Scope N_scope.
 
 (** The loop law: a run interrupted with budget [b1] and resumed with [b2] equals one run with
@@ -47,6 +47,30 @@ Theorem C04_secondary : forall (H : list N -> list N) l w wk e b,
   secondary_selection_step H e b wk = secondary_selection_step H e (total_budget l b) w.
 Proof. exact secondary_multi_resume. Qed.
 
+(** other accepted transactions between the calls of a step: during the selection period the
+    contracts accept, besides the step itself, only pause / unpause, setSupportAddress and
+    setClaimStartRound (a start round still in the future); after the reset of the output fields every
+    transaction begins with, what they leave is a [Tw] transform of the world ([C04_noise_calls]).  A
+    history of interrupted calls with such transforms in between ([noisy]), completed by an accepted
+    call, ends in the [Uw] transform (support address, claim start) of what the noise-free history
+    with the same calls ends in: the step's outcome does not depend on the interleaved transactions. *)
+Theorem C04_noise_calls : forall (H : list N -> list N) v e b sd w c w' r sd',
+  noise_call c -> exec H v e b sd w c = Ok (w', r) ->
+  exists su cs p, reset_outputs w' sd' = Tw su cs p (reset_outputs w sd').
+Proof. exact noise_exec. Qed.
+
+Theorem C04_filter_noise : forall wa wk e b wf x,
+  noisy filter_tickets wa wk -> paused (st wa) = false -> open_flags wa -> filter_tickets e b wk = Ok (wf, x) ->
+  exists l wq su cs wpure, after_interrupted filter_tickets l wa = Some wq /\
+                           filter_tickets e b wq = Ok (wpure, x) /\ wf = Uw su cs wpure.
+Proof. exact filter_noisy_complete. Qed.
+
+Theorem C04_select_noise : forall (H : list N -> list N) wa wk e b wf x,
+  noisy (select_winners H) wa wk -> paused (st wa) = false -> open_flags wa -> select_winners H e b wk = Ok (wf, x) ->
+  exists l wq su cs wpure, after_interrupted (select_winners H) l wa = Some wq /\
+                           select_winners H e b wq = Ok (wpure, x) /\ wf = Uw su cs wpure.
+Proof. exact select_noisy_complete. Qed.
+
 (** a resumed selectWinners neither reads nor consumes the fresh randomness of its own call *)
 Theorem C04_select_seed_fixed : forall (H : list N -> list N) e b w r p sd,
   op (st w) = OpSelect r p ->
@@ -81,6 +105,9 @@ Print Assumptions C04_select.
 Print Assumptions C04_distribute.
 Print Assumptions C04_select_nft.
 Print Assumptions C04_secondary.
+Print Assumptions C04_noise_calls.
+Print Assumptions C04_filter_noise.
+Print Assumptions C04_select_noise.
 Print Assumptions C04_select_seed_fixed.
 Print Assumptions C04_completes.
 Print Assumptions C04_nonvacuous.
